@@ -133,6 +133,89 @@ let r2d_flags w64 dt ds (x : stmoc) : string list =
   in
   go N0 None x; ignore dt; !fl
 
+(* ---------- C13: store histories ---------- *)
+type sval = V1 of qty * n * (n * n) list | VST of n * n * stmoc
+
+let kind_char = function Hpx -> "s" | Time -> "t" | Freq -> "f"
+
+let out_sval v =
+  match v with
+  | V1 (q, d, l) -> out_s (" " ^ kind_char q); out_n d; out_ranges l
+  | VST (dt, ds, x) -> out_s " st"; out_n dt; out_n ds; out_int (List.length x)
+
+let w64 = n_of_int 64
+
+let store_op1 (name : string) (arg : n) (vs : sval list) : sval option =
+  match name, vs with
+  | "not", [ V1 (q, d, l) ] -> let (d', l') = moc_not q w64 d l in Some (V1 (q, d', l'))
+  | "deg", [ V1 (q, d, l) ] -> let (d', l') = moc_degrade q w64 d l arg in Some (V1 (q, d', l'))
+  | _ -> None
+
+let store_op2 (name : string) (vs : sval list) : sval option =
+  match name, vs with
+  | ("and" | "or" | "xor" | "minus"), [ V1 (q1, d1, l1); V1 (q2, d2, l2) ] when q1 = q2 ->
+      let o = (match name with "and" -> OAnd | "or" -> OOr | "xor" -> OXor | _ -> OMinus) in
+      let (d, l) = moc_op2 o q1 w64 d1 l1 d2 l2 in Some (V1 (q1, d, l))
+  | ("and" | "or" | "minus"), [ VST (dt1, ds1, a); VST (dt2, ds2, b) ] ->
+      let o = (match name with "and" -> OAnd | "or" -> OOr | _ -> OMinus) in
+      let ub = n_cells_max Hpx w64 in
+      let res = st_op_spec o ub a b in
+      (* certified by the verified checker *)
+      if not (pts_opb o ub res a b) then raise (Parse_error "st_op_spec-not-certified");
+      Some (VST (N.max dt1 dt2, N.max ds1 ds2, res))
+  | "tfold", [ V1 (Time, _, t); VST (_, ds, x) ] -> Some (V1 (Hpx, ds, tfold x t))
+  | "sfold", [ V1 (Hpx, _, sp); VST (dt, _, x) ] -> Some (V1 (Time, dt, sfold x sp))
+  | _ -> None
+
+let store_opn (name : string) (vs : sval list) : sval option =
+  match vs with
+  | [] -> None
+  | V1 (q, _, _) :: _ ->
+      if List.for_all (function V1 (q', _, _) -> q' = q | _ -> false) vs then begin
+        let l = List.map (function V1 (_, d, l) -> (d, l) | _ -> (N0, [])) vs in
+        let o = (match name with "and" -> OAnd | "or" -> OOr | _ -> OXor) in
+        let (d, r) = kway o q w64 l in Some (V1 (q, d, r))
+      end else None
+  | _ -> None
+
+let rec nat_of_int i = if i <= 0 then O else S (nat_of_int (i - 1))
+let rec int_of_nat = function O -> 0 | S k -> 1 + int_of_nat k
+
+let handle_hist (r : reader) : unit =
+  let ncalls = next_int r in
+  let slab = ref { ents = []; freel = [] } in
+  let created : (int, int) Hashtbl.t = Hashtbl.create 64 in  (* creation index -> key *)
+  let ncreated = ref 0 in
+  let key_of (tok : string) : nat =
+    (* "#i" creation index, or raw key *)
+    if String.length tok > 0 && tok.[0] = '#' then
+      let i = int_of_string (String.sub tok 1 (String.length tok - 1)) in
+      nat_of_int (try Hashtbl.find created i with Not_found -> 5000 + i)
+    else nat_of_int (int_of_string tok) in
+  let do_call (c : sval call) : unit =
+    let (s', res) = exec !slab c in
+    slab := s';
+    (match res with
+     | RKey k -> Hashtbl.replace created !ncreated (int_of_nat k); out_s (" K" ^ string_of_int !ncreated ^ ":" ^ string_of_int (int_of_nat k)); incr ncreated
+     | ROk -> out_s " OK"
+     | RVal v -> out_s " V"; out_sval v
+     | RErr -> (match c with Add _ | Op _ -> incr ncreated | _ -> ()); out_s " ERR");
+    out_s " ;" in
+  out_s "OK";
+  for _ = 1 to ncalls do
+    match next r with
+    | "ADD" -> let q = next_qty r in let d = next_n r in let l = next_ranges r in do_call (Add (V1 (q, d, l)))
+    | "ADDST" -> let dt = next_n r in let ds = next_n r in let x = next_stmoc r in do_call (Add (VST (dt, ds, x)))
+    | "COPY" -> do_call (Copy (key_of (next r)))
+    | "DROP" -> do_call (Drop (key_of (next r)))
+    | "READ" -> do_call (Read (key_of (next r)))
+    | "NOT" -> let k = key_of (next r) in do_call (Op ([ k ], store_op1 "not" N0))
+    | "DEG" -> let k = key_of (next r) in let d = next_n r in do_call (Op ([ k ], store_op1 "deg" d))
+    | "OP2" -> let name = next r in let a = key_of (next r) in let b = key_of (next r) in do_call (Op ([ a; b ], store_op2 name))
+    | "OPN" -> let name = next r in let ks = next_list r (fun r -> key_of (next r)) in do_call (Op (ks, store_opn name))
+    | _ -> raise (Parse_error "hist-call")
+  done
+
 (* ---------- dispatch ---------- *)
 let handle (r : reader) : unit =
   match next r with
@@ -250,6 +333,24 @@ let handle (r : reader) : unit =
       let bytes = encode_rows (nat_of_int (w / 8)) l in
       out_s "OK ";
       List.iter (fun b -> Buffer.add_string buf (Printf.sprintf "%02x" (int_of_n b))) bytes
+  | "HIST" -> handle_hist r
+  | "TEXTV" ->
+      (* TEXTV q w nmarks marks n (d a b_incl|INVx)* : reference validation of a text document *)
+      let q = next_qty r in
+      let w = next_n r in
+      let marks = next_list r next_n in
+      let items = next_list r (fun r ->
+        let d = next_n r in
+        let a = next_n r in
+        let bt = next r in
+        let b_excl =
+          if String.length bt > 3 && String.sub bt 0 3 = "INV" then n_of_string (String.sub bt 3 (String.length bt - 3))  (* inverted: b_incl < a, keep b_incl so that a >= b *)
+          else N.succ (n_of_string bt) in
+        (d, (a, b_excl))) in
+      let depth = text_depth marks items in
+      if text_accept q w items && N.leb depth (max_depth q w) then begin
+        out_s "ACCEPT"; out_n depth; out_ranges (text_decode q w items)
+      end else out_s "REJECT"
   | "STROWS" ->
       (* STROWS w X -> hex of the FITS v2 data part *)
       let w = next_int r in
